@@ -108,6 +108,85 @@ fn dedup_line(line: &str) -> String {
     })
 }
 
+/// <manifest-hex> <file-hex|-> [W <build> <hexhash> <dep-hex,dep-hex|->]...
+fn db_line(line: &str) -> String {
+    let w: Vec<String> = words(line).iter().map(|s| s.to_string()).collect();
+    let dir = std::env::temp_dir().join(format!(
+        "n2verif-db-{}-{}",
+        std::process::id(),
+        std::time::SystemTime::now()
+            .duration_since(std::time::SystemTime::UNIX_EPOCH)
+            .unwrap()
+            .as_nanos()
+    ));
+    std::fs::create_dir_all(&dir).unwrap();
+    let dbp = dir.join(".n2_db");
+    if w[1] != "-x" {
+        std::fs::write(&dbp, unhex(&w[1])).unwrap();
+    }
+    let manifest = unhex(&w[0]);
+    let res = guarded({
+        let dbp = dbp.clone();
+        let w = w.clone();
+        move || {
+            let mut s = match n2::verif::Session::load_text("build.ninja", manifest) {
+                Ok(s) => s,
+                Err(e) => return format!("manifest-error {}", hex(e.as_bytes())),
+            };
+            if let Err(e) = s.open_db(&dbp) {
+                return format!("err {}", hex(e.as_bytes()));
+            }
+            let after_open = std::fs::read(&dbp).unwrap();
+            let loaded: Vec<String> = s
+                .builds()
+                .iter()
+                .enumerate()
+                .filter_map(|(i, b)| {
+                    b.last_hash.map(|h| {
+                        format!(
+                            "{}:{:x}:{}",
+                            i,
+                            h,
+                            b.discovered_ins
+                                .iter()
+                                .map(|d| hex(d.as_bytes()))
+                                .collect::<Vec<_>>()
+                                .join(",")
+                        )
+                    })
+                })
+                .collect();
+            let mut i = 2;
+            while i + 3 < w.len() + 0 && w[i] == "W" {
+                let b: usize = w[i + 1].parse().unwrap();
+                let h = u64::from_str_radix(&w[i + 2], 16).unwrap();
+                let deps: Vec<String> = if w[i + 3] == "-" {
+                    Vec::new()
+                } else {
+                    w[i + 3]
+                        .split(',')
+                        .map(|d| String::from_utf8(unhex(d)).unwrap())
+                        .collect()
+                };
+                if let Err(e) = s.write_build(b, deps, h) {
+                    return format!("werr {}", hex(e.as_bytes()));
+                }
+                i += 4;
+            }
+            s.close_db();
+            let fin = std::fs::read(&dbp).unwrap();
+            format!(
+                "ok after_open={} loaded={} final={}",
+                hex(&after_open),
+                loaded.join(";"),
+                hex(&fin)
+            )
+        }
+    });
+    let _ = std::fs::remove_dir_all(&dir);
+    res
+}
+
 fn main() {
     let args: Vec<String> = std::env::args().collect();
     let suite = args.get(1).map(|s| s.as_str()).unwrap_or("");
@@ -122,6 +201,7 @@ fn main() {
         "bar" => bar_line,
         "dedup" => dedup_line,
         "hist" => hist::hist_line,
+        "db" => db_line,
         _ => {
             eprintln!("unknown suite {suite}");
             std::process::exit(2);
